@@ -1341,15 +1341,34 @@ func TestVerifC07(t *testing.T) {
 	vContent(t, emit)
 	lap("content")
 
-	// 6. stress
-	rounds := 2
-	if thorough {
-		rounds = 10
+}
+
+// TestVerifC07Stress: the 16-goroutine stress (run with -race in the thorough tier).
+func TestVerifC07Stress(t *testing.T) {
+	log.SetLevel(log.PanicLevel)
+	outPath := os.Getenv("VERIF_OUT")
+	if outPath == "" {
+		t.Skip("VERIF_OUT not set")
+	}
+	if os.Getenv("VERIF_REPLAY") != "" {
+		return
+	}
+	f, err := os.Create(outPath)
+	if err != nil {
+		t.Fatal(err)
+	}
+	defer f.Close()
+	emit := func(s string) { fmt.Fprintln(f, s) }
+	r := &vRng{s: vSeed()*0x7654321 + 5}
+	t0 := time.Now()
+	rounds := 3
+	if vThorough() {
+		rounds = 12
 	}
 	for i := 0; i < rounds; i++ {
 		for _, l := range vStress(t, r, 40) {
 			emit(l)
 		}
 	}
-	lap("stress")
+	emit(fmt.Sprintf("# timing stress %.1fs", time.Since(t0).Seconds()))
 }
